@@ -69,3 +69,11 @@ Lemma arch_roundtrip_upper (level : nat) (x : xfile) (c0 : Z -> Z) (clobber : xf
 Proof.
   intros Hl H. unfold arch_roundtrip128. rewrite !arch_roundtrip_untouched by auto. cbn. now destruct (clobber r).
 Qed.
+
+(* the SSE control/status register comes back as it was: rounding mode and sticky exception flags of the traced
+   program do not see the floating-point work of a script or of libc inside the hook *)
+Lemma mxcsr_preserved (csr clobber : Z) : mxcsr_now csr clobber = csr.
+Proof. reflexivity. Qed.
+(* the code before fix C01-8 did not save it *)
+Lemma mxcsr_legacy_refuted : exists csr clobber, mxcsr_roundtrip false csr clobber <> csr.
+Proof. exists 8064, 24480. vm_compute. discriminate. Qed.
